@@ -462,7 +462,8 @@ def eval_shard(args):
 
 
 def eval_cases(spec, workdir, cases, shard_ints=40000, workers=16):
-    """Returns dict idx -> (kind, a, b) for non-agreeing cases; raises on coq error."""
+    """Returns dict idx -> list of (kind, a, b) for non-agreeing cases (a case can have several
+    false clauses and a correspondence break at once); raises on coq error."""
     shards, cur, cur_n = [], [], 0
     for i, c in enumerate(cases):
         n = case_ints(c)
@@ -479,7 +480,7 @@ def eval_cases(spec, workdir, cases, shard_ints=40000, workers=16):
             if "error" in res:
                 raise RuntimeError("coqc failed on generated cases (%s): %s" % (res["file"], res["error"]))
             for (i, kind, a, b) in res["verdicts"]:
-                out[i] = (kind, a, b)
+                out.setdefault(i, []).append((kind, a, b))
     return out
 
 
@@ -536,8 +537,8 @@ def shrink(spec, workdir, tier, seed, case, target, rounds=8):
             v = eval_cases(spec, workdir, res["cases"])
         except RuntimeError:
             break
-        good = [res["cases"][i] for i, (k, a, b) in v.items()
-                if k == kind and (kind != 2 or a == clause)]
+        good = [res["cases"][i] for i, vs in v.items()
+                if any(k == kind and (kind != 2 or a == clause) for (k, a, b) in vs)]
         if not good:
             break
         nb = min(good, key=lambda c: len(c["ops"]))
@@ -660,14 +661,14 @@ def main():
         violations.append((p, "" if res.get("crashed_case") else " no-failing-input-found", driver_problem))
 
     known = load_known()
-    bad = [i for i, (k, _, _) in verdicts.items() if k == 3]
+    bad = [i for i, vs in verdicts.items() if any(k == 3 for (k, _, _) in vs)]
     if bad:
         log("INFRASTRUCTURE: BadCase verdicts (harness/codec bug) for cases %s" % bad[:5])
         write_replay(pid, "badcase.json", {"case": cases[bad[0]]})
         return 2
 
-    propfails = sorted((i, a_, b_) for i, (k, a_, b_) in verdicts.items() if k == 2)
-    disagrees = sorted((i, a_) for i, (k, a_, b_) in verdicts.items() if k == 1)
+    propfails = sorted((i, a_, b_) for i, vs in verdicts.items() for (k, a_, b_) in vs if k == 2)
+    disagrees = sorted((i, a_) for i, vs in verdicts.items() for (k, a_, b_) in vs if k == 1)
     known_hits = {}
     unlisted = []
     for (i, clause, aux) in propfails:
@@ -703,9 +704,12 @@ def main():
             if sres["cases"]:
                 try:
                     sv = eval_cases(spec, workdir, sres["cases"])
-                    for j, (k, cl, aux) in sorted(sv.items()):
-                        if k == 2 and not known_match(known, pid, 2, cl):
-                            found = (sres["cases"][j], cl, aux)
+                    for j, vs in sorted(sv.items()):
+                        for (k, cl, aux) in vs:
+                            if k == 2 and not known_match(known, pid, 2, cl):
+                                found = (sres["cases"][j], cl, aux)
+                                break
+                        if found:
                             break
                 except RuntimeError:
                     pass
